@@ -36,14 +36,14 @@ META = {
 
 
 def run(rep):
-    get_mappings(rep)
-    isomorphic(rep)
-    helpers(rep)
-    wl_cache(rep)
-    pre_check(rep)
-    use_filter(rep)
-    compiled_predicates(rep)
-    quick_pre_filter(rep)
+    rep.run(get_mappings)
+    rep.run(isomorphic)
+    rep.run(helpers)
+    rep.run(wl_cache)
+    rep.run(pre_check)
+    rep.run(use_filter)
+    rep.run(compiled_predicates)
+    rep.run(quick_pre_filter)
 
 
 # ------------------------------------------------------------------ O7.1
